@@ -3118,8 +3118,19 @@ func CreateCertificateRequest(rand io.Reader, template *CertificateRequest, priv
 
 	digest := hash(hashFunc, tbsCSRContents)
 
+	// The RSA-PSS algorithms must be signed with PSS options (as CreateCertificate
+	// does); with a bare hash the signer produces a PKCS #1 v1.5 signature that can
+	// never verify under the RSASSA-PSS identifier written above.
+	var signerOpts crypto.SignerOpts = hashFunc
+	if template.SignatureAlgorithm != 0 && template.SignatureAlgorithm.isRSAPSS() {
+		signerOpts = &rsa.PSSOptions{
+			SaltLength: rsa.PSSSaltLengthEqualsHash,
+			Hash:       hashFunc,
+		}
+	}
+
 	var signature []byte
-	signature, err = key.Sign(rand, digest, hashFunc)
+	signature, err = key.Sign(rand, digest, signerOpts)
 	if err != nil {
 		return
 	}
